@@ -400,3 +400,30 @@ def r6(ctx):
 def r7(ctx):
     from . import c20
     ctx.sub(c20.r4)
+
+
+@rule("C08", "R8", "CENSUS", "repopulation refuses a labelling only where the donor search is exhausted", floor=1)
+def r8(ctx):
+    """"... either raises a clear error because no cluster holds at least 2m points, or returns a labelling ...": the raise at the
+    end of the donor search (R3/R7) is the only way out other than a result.  Any other `raise` on the repopulation path rejects
+    labellings the property promises to repair (for instance a count of donors against recipients: one donor with 3m points serves
+    several recipients)."""
+    ana = ctx.ana
+    donor = ana.func(DONOR)
+    seen = 0
+    for q in sorted(ana.res.reachable([ana.func(REPOP).qualname])):
+        f = ana.prog.functions.get(q)
+        if f is None or not f.qualname.startswith("fast_ticc.cluster_maintenance."):
+            continue
+        handlers = {id(r) for h in ast.walk(f.node) if isinstance(h, ast.ExceptHandler) for r in ast.walk(h) if isinstance(r, ast.Raise)}
+        for n in Resolver.walk_own(f.node):
+            if isinstance(n, ast.Raise) and id(n) not in handlers:
+                seen += 1
+                if f is donor:
+                    ctx.ok(f, "the donor search raises when its pool is exhausted", line=n.lineno, role="raise:donor-search")
+                else:
+                    ctx.fail(f, "repopulation raises outside the donor search: a labelling with an eligible donor can be refused",
+                             line=n.lineno, role=f"raise:other:{short(f.qualname)}", expected="only _find_point_donor raises (pool exhausted)",
+                             found=unparse(n, 90))
+    if not seen:
+        raise AnalysisError("no raise statement found on the repopulation path")
